@@ -312,3 +312,19 @@ def register(kernel):
            coq_params=pparams, result="V", thm_params=pparams, gen_args="r v", model="p_energy_grad ROps r v",
            model_name="Rbm.p_energy_grad (reduce=False: [W; U; visible bias; hidden bias; aux bias])",
            tactic="intros; cbv [GEN p_energy_grad]; cbn [concat]; rewrite ?app_nil_r, ?app_assoc; reflexivity", **pfile)
+
+    # ------------------------------------------------------------------ C05: data flow of the block-Gibbs loops
+    kernel("C05", name="gibbs_loop_binary", kind="gibbs-skeleton", file="qucumber/rbm/binary_rbm.py", func="BinaryRBM.gibbs_steps",
+           inputs=[], coq_params=[],
+           thm_params=[("r", "(@brbm R)"), ("k", "nat"), ("v", "bits"), ("h0", "bits"), ("a0", "bits"), ("draws", "list bits")],
+           stmt="run_gibbs (b_prob_h_given_v ROps r) (fun _ => []) (b_prob_v_given_h ROps r) (fun _ _ => []) GEN k v h0 a0 draws = b_gibbs_steps ROps r k v draws",
+           gen_args="", model="", model_name="Gibbs.b_gibbs_steps (through GibbsSkel.run_gibbs: the extracted loop, interpreted on the recorded draws, is the sampler)",
+           imports=["Bits", "Rbm", "Gibbs", "GibbsSkel"], cor_imports=["GibbsSkelT"],
+           tactic="apply skeleton_b_is_sampler; vm_compute; reflexivity")
+    kernel("C05", name="gibbs_loop_purification", kind="gibbs-skeleton", file="qucumber/rbm/purification_rbm.py", func="PurificationRBM.gibbs_steps",
+           inputs=[], coq_params=[],
+           thm_params=[("r", "(@prbm R)"), ("k", "nat"), ("v", "bits"), ("h0", "bits"), ("a0", "bits"), ("draws", "list bits")],
+           stmt="run_gibbs (p_prob_h_given_v ROps r) (p_prob_a_given_v ROps r) (fun _ => []) (p_prob_v_given_ha ROps r) GEN k v h0 a0 draws = p_gibbs_steps ROps r k v draws",
+           gen_args="", model="", model_name="Gibbs.p_gibbs_steps (through GibbsSkel.run_gibbs)",
+           imports=["Bits", "Rbm", "Gibbs", "GibbsSkel"], cor_imports=["GibbsSkelT"],
+           tactic="apply skeleton_p_is_sampler; vm_compute; reflexivity")
